@@ -28,7 +28,7 @@ META = {
     "deciding": ["lookup:get_rates", "file:magnitudes", "file:total", "history:scaling", "invariant:data=_data*_scale"],
     "exhaustive_tiers": {"quick": {"scaling histories of length <= 3 over 10 operations (7 scalar incl. a test date exactly at the forecast end, 3 array-valued factors)": True}, "thorough": {"scaling histories of length <= 4 over 10 operations (7 scalar incl. a test date exactly at the forecast end, 3 array-valued factors)": True}},
 }
-META["added"] = 'Added: write_dat round trip, quadtree loaders, array-valued scale factors in the exhaustive histories, event_count must be the scalar total, anchors whose scaled value is one ulp below an integer. magnitudes just below a magnitude edge. files with every cell flagged 0. test date exactly at the forecast end.'
+META["added"] = 'Added: write_dat round trip, quadtree loaders, array-valued scale factors in the exhaustive histories, event_count must be the scalar total, anchors whose scaled value is one ulp below an integer. magnitudes just below a magnitude edge. files with every cell flagged 0. test date exactly at the forecast end. a sibling file on the same cells loaded in between.'
 MANIFEST = {
     "technique": "invariant on live GriddedDataSet objects (data == _data*_scale, _data digest unchanged) evaluated after every public method + boundary recorder on the loaders and get_rates against a per-row writer model + sequential history checker for scale / scale_to_test_date (exhaustive short histories)",
     "level_text": "Generated forecast files (Cartesian and quadtree layouts) are loaded by the real loaders; for every row the rate returned at the row's lower corner (exactly the printed numbers), centre and just-above-face points must be that row's rate, flag-0 cells must lie outside the region, magnitudes must be the file's lower edges in order and totals/marginals must add up; all scaling histories up to length 3 (quick) / 4 (thorough) are enumerated against a two-line reference model while an invariant watches data == _data*_scale and the loaded array's digest.",
@@ -112,6 +112,14 @@ def ex_file(ctx, case, seed=0):
             ctx.violate("loading a well-formed forecast file raised", rc, observed=repr(fore), tb=tb, tags=dict(tags, clause="raised", exc=type(fore).__name__))
             return
         fore._verif_digest = fore._data.tobytes()
+        if seed % 3 == 1:
+            # history: ANOTHER forecast file on the same cells (same flags, same column order) but with other magnitude bins is loaded before the
+            # first forecast is queried - the first forecast must keep answering from its own file
+            sib = dict(case, m0=str(Decimal(case["m0"]) + Decimal("0.35")), dm="0.4", nm=case["nm"] + 1,
+                       rates=[list(r_) + [0.123] for r_ in case["rates"]])
+            write_dat(os.path.join(tmp, "sibling.dat"), sib)
+            ctx.call(csep.load_gridded_forecast, os.path.join(tmp, "sibling.dat"), swap_latlon=case["swap"])
+            tags = dict(tags, history="sibling file on the same cells loaded in between")
         ncorner = check_loaded(ctx, rc, tags, fore, rows, case, numpy.random.default_rng([seed, 11]))
         with open(path, "rb") as f:
             dg = digest(f.read())
